@@ -626,47 +626,64 @@ func c04Display(c *Ctx) {
 	}
 	c.fn(f)
 	recv := recvName(f)
-	// arms of the tagless switch on the alternatives
-	arms := map[string]*ast.CaseClause{}
+	x := w.expander(f)
+	e := w.ent(f)
+	// every return is attributed to the alternative that is entailed present where it stands (switch arm, if chain,
+	// guard clauses: the shape does not matter)
+	altExpr := map[string]ast.Expr{}
 	walkNoLit(f.Body, func(n ast.Node) bool {
-		cc, ok := n.(*ast.CaseClause)
-		if !ok || len(cc.List) != 1 {
+		if sel, ok := n.(*ast.SelectorExpr); ok && exprStr(sel.X) == recv {
+			if _, have := altExpr[sel.Sel.Name]; !have {
+				altExpr[sel.Sel.Name] = sel
+			}
+		}
+		return true
+	})
+	type armT struct {
+		rets []*ast.ReturnStmt
+		pos  token.Pos
+	}
+	arms := map[string]*armT{}
+	walkNoLit(f.Body, func(n ast.Node) bool {
+		r, ok := n.(*ast.ReturnStmt)
+		if !ok || len(r.Results) != 1 {
 			return true
 		}
-		if b, ok := unparen(cc.List[0]).(*ast.BinaryExpr); ok && b.Op == token.NEQ && isNilExpr(info, b.Y) {
-			if sel, ok := unparen(b.X).(*ast.SelectorExpr); ok && exprStr(sel.X) == recv {
-				arms[sel.Sel.Name] = cc
+		at := site{pos: r.Pos(), anc: r}
+		kc := keyCtx{e: e, s: &at}
+		for _, alt := range []string{"Number", "Boolean", "String"} {
+			if ae := altExpr[alt]; ae != nil {
+				if ok, _ := e.Prove(r, e.nn(kc, ae)); ok {
+					if arms[alt] == nil {
+						arms[alt] = &armT{pos: r.Pos()}
+					}
+					arms[alt].rets = append(arms[alt].rets, r)
+					break
+				}
 			}
 		}
 		return true
 	})
 	for _, alt := range []string{"Number", "Boolean", "String"} {
 		if arms[alt] == nil {
-			c.ob("C04.R4", f.Name+"/"+alt, w.Pos(f.Decl.Pos()), false, "ToString has no arm for the "+alt+" alternative")
+			c.ob("C04.R4", f.Name+"/"+alt, w.Pos(f.Decl.Pos()), false, "ToString has no return under a test that the "+alt+" alternative is present")
 		}
 	}
-	x := w.expander(f)
 	// Number
 	if cc := arms["Number"]; cc != nil {
 		var floatRets, intRets []*ast.ReturnStmt
-		for _, st := range cc.Body {
-			ast.Inspect(st, func(n ast.Node) bool {
-				if r, ok := n.(*ast.ReturnStmt); ok && len(r.Results) == 1 {
-					s := x.str(r.Results[0])
-					if strings.HasPrefix(s, "strconv.Itoa(") || strings.HasPrefix(s, "strconv.FormatInt(") {
-						intRets = append(intRets, r)
-					} else {
-						floatRets = append(floatRets, r)
-					}
-				}
-				return true
-			})
+		for _, r := range cc.rets {
+			s := x.str(r.Results[0])
+			if strings.HasPrefix(s, "strconv.Itoa(") || strings.HasPrefix(s, "strconv.FormatInt(") {
+				intRets = append(intRets, r)
+			} else {
+				floatRets = append(floatRets, r)
+			}
 		}
 		num := "$" + recv + ".Number"
 		// integer branch under the integrality guard
 		okInt := false
 		whyInt := "no integer-formatted branch"
-		e := w.ent(f)
 		for _, r := range intRets {
 			s := x.str(r.Results[0])
 			if s != "strconv.Itoa(conv:int("+num+"))" && s != "strconv.FormatInt(conv:int64("+num+"),10)" {
@@ -695,7 +712,7 @@ func c04Display(c *Ctx) {
 				whyInt = "the integer branch is not entailed by the integrality guard: " + how
 			}
 		}
-		c.ob("C04.R4", f.Name+"/integral-numbers", w.Pos(cc.Pos()), okInt, whyInt)
+		c.ob("C04.R4", f.Name+"/integral-numbers", w.Pos(cc.pos), okInt, whyInt)
 		okFloat := len(floatRets) > 0
 		whyFloat := "no branch for non-integral numbers"
 		for _, r := range floatRets {
@@ -705,46 +722,59 @@ func c04Display(c *Ctx) {
 			}
 			whyFloat = why
 		}
-		c.ob("C04.R4", f.Name+"/other-numbers", w.Pos(cc.Pos()), okFloat, whyFloat)
+		c.ob("C04.R4", f.Name+"/other-numbers", w.Pos(cc.pos), okFloat, whyFloat)
 	}
 	if cc := arms["Boolean"]; cc != nil {
-		vals := map[string]bool{}
-		for _, st := range cc.Body {
-			ast.Inspect(st, func(n ast.Node) bool {
-				if r, ok := n.(*ast.ReturnStmt); ok && len(r.Results) == 1 {
-					if tv, ok := info.Types[r.Results[0]]; ok && tv.Value != nil && tv.Value.Kind() == constant.String {
-						vals[constant.StringVal(tv.Value)] = true
-					} else {
-						vals["?"] = true
-					}
+		// the dereferenced boolean as a condition somewhere in the function
+		var bcond ast.Expr
+		walkNoLit(f.Body, func(n ast.Node) bool {
+			switch q := n.(type) {
+			case *ast.IfStmt:
+				if x.str(q.Cond) == "$"+recv+".Boolean" {
+					bcond = q.Cond
 				}
-				return true
-			})
-		}
-		// True under *v.Boolean, False otherwise
-		okB := len(vals) == 2 && vals["True"] && vals["False"]
-		polarity := false
-		for _, st := range cc.Body {
-			if is, ok := st.(*ast.IfStmt); ok && x.str(is.Cond) == "$"+recv+".Boolean" {
-				if len(is.Body.List) == 1 {
-					if r, ok := is.Body.List[0].(*ast.ReturnStmt); ok {
-						if tv, ok := info.Types[r.Results[0]]; ok && tv.Value != nil && constant.StringVal(tv.Value) == "True" {
-							polarity = true
-						}
+			case *ast.CaseClause:
+				for _, cx := range q.List {
+					if x.str(cx) == "$"+recv+".Boolean" {
+						bcond = cx
 					}
 				}
 			}
+			return true
+		})
+		vals := map[string]bool{}
+		okPol, whyPol := bcond != nil, "the boolean's value is never tested"
+		for _, r := range cc.rets {
+			tv, ok := info.Types[r.Results[0]]
+			if !ok || tv.Value == nil || tv.Value.Kind() != constant.String {
+				vals["?"] = true
+				continue
+			}
+			word := constant.StringVal(tv.Value)
+			vals[word] = true
+			if bcond == nil {
+				continue
+			}
+			at := site{pos: r.Pos(), anc: r}
+			goal := e.cond(keyCtx{e: e, s: &at}, bcond, 0)
+			if word == "False" {
+				goal = Not{goal}
+			}
+			if ok, how := e.Prove(r, goal); !ok {
+				okPol, whyPol = false, word+" is returned without the boolean's value entailing it: "+how
+			}
 		}
-		c.ob("C04.R4", f.Name+"/booleans", w.Pos(cc.Pos()), okB && polarity, map[bool]string{true: "booleans print as the constants True (for true) and False", false: "booleans do not print as True for true and False for false"}[okB && polarity])
+		okB := len(vals) == 2 && vals["True"] && vals["False"]
+		c.ob("C04.R4", f.Name+"/booleans", w.Pos(cc.pos), okB && okPol, map[bool]string{true: "booleans print as the constants True (entailed by the value being true) and False (by its being false)", false: "booleans do not print as True for true and False for false (" + whyPol + ")"}[okB && okPol])
 	}
 	if cc := arms["String"]; cc != nil {
-		okS := false
-		for _, st := range cc.Body {
-			if r, ok := st.(*ast.ReturnStmt); ok && len(r.Results) == 1 && x.str(r.Results[0]) == "$"+recv+".String" {
-				okS = true
+		okS := len(cc.rets) > 0
+		for _, r := range cc.rets {
+			if x.str(r.Results[0]) != "$"+recv+".String" {
+				okS = false
 			}
 		}
-		c.ob("C04.R4", f.Name+"/strings", w.Pos(cc.Pos()), okS, map[bool]string{true: "strings print verbatim", false: "strings are not printed verbatim"}[okS])
+		c.ob("C04.R4", f.Name+"/strings", w.Pos(cc.pos), okS, map[bool]string{true: "strings print verbatim", false: "strings are not printed verbatim"}[okS])
 	}
 }
 
